@@ -126,6 +126,13 @@ declarations:
       function_suffix: _mutable
 - decl: void takes(Cls *c, const Cls &d)
 - decl: int byVal(Cls c, int extra)
+# a second class, declared after the first and sorting before it: each object is released by its own class's destructor
+- decl: class Abc
+  declarations:
+  - decl: Abc(int id)
+  - decl: ~Abc()
+  - decl: int id() const
+- decl: Abc *newAbc(int id) +owner(caller)
 - decl: Cls *findCls(int id)
 - decl: Cls *newCls(int id) +owner(caller)
 - decl: Cls &refCls(int id)
@@ -150,6 +157,21 @@ declarations:
   cxx_template:
   - instantiation: <int, double>
   - instantiation: <long, float>
+# overloaded function templates: the explicit function_suffix and the template_suffix of each instantiation both appear, in the documented order
+- decl: |
+    template<typename T> int put(T v)
+  format:
+    function_suffix: _one
+  cxx_template:
+  - instantiation: <int>
+  - instantiation: <double>
+- decl: |
+    template<typename T> int put(T v, T w)
+  format:
+    function_suffix: _two
+  cxx_template:
+  - instantiation: <int>
+  - instantiation: <double>
 - decl: void order(int a, double b, const std::string &c, bool d)
 - decl: void halo(int n, int m, int *cells +intent(out)+dimension(n+2,m))
 - decl: int *nodes(int n, int m) +dimension(n+1,m+1)
@@ -192,6 +214,10 @@ public:
 };
 void takes(Cls *c, const Cls &d);
 int byVal(Cls c, int extra);
+class Abc { int m_id; public: Abc(int id); ~Abc(); int id() const; };
+Abc *newAbc(int id);
+template<typename T> int put(T v);
+template<typename T> int put(T v, T w);
 Cls *findCls(int id);
 Cls *newCls(int id);
 Cls &refCls(int id);
@@ -234,6 +260,14 @@ int Cls::which() const { vt_txt("RECV Cls::which-const this="); vt_i(m_id); vt_t
 int Cls::which() { vt_txt("RECV Cls::which-mutable this="); vt_i(m_id); vt_txt("\n"); return 2; }
 void takes(Cls *c, const Cls &d) { vt_txt("RECV takes c="); vt_i(c->id()); vt_txt(" d="); vt_i(d.id()); vt_txt("\n"); }
 int byVal(Cls c, int extra) { vt_txt("RECV byVal c="); vt_i(c.id()); vt_txt(" extra="); vt_i(extra); vt_txt("\n"); return c.id() + extra; }
+Abc::Abc(int id) : m_id(id) { vt_txt("RECV Abc::Abc id="); vt_i(id); vt_txt("\n"); }
+Abc::~Abc() { vt_txt("RECV Abc::~Abc this="); vt_i(m_id); vt_txt("\n"); }
+int Abc::id() const { return m_id; }
+Abc *newAbc(int id) { vt_txt("RECV newAbc id="); vt_i(id); vt_txt("\n"); return new Abc(id); }
+template<> int put<int>(int v) { vt_txt("RECV put<int>(1) v="); vt_i(v); vt_txt("\n"); return 11; }
+template<> int put<double>(double v) { vt_txt("RECV put<double>(1) v="); vt_d(v); vt_txt("\n"); return 12; }
+template<> int put<int>(int v, int w) { vt_txt("RECV put<int>(2) v="); vt_i(v); vt_txt(" w="); vt_i(w); vt_txt("\n"); return 21; }
+template<> int put<double>(double v, double w) { vt_txt("RECV put<double>(2) v="); vt_d(v); vt_txt(" w="); vt_d(w); vt_txt("\n"); return 22; }
 static Cls *lib_objs[2];
 Cls *findCls(int id) { if (!lib_objs[0]) { lib_objs[0] = new Cls(100); lib_objs[1] = new Cls(101); } vt_txt("RECV findCls id="); vt_i(id); vt_txt("\n"); return lib_objs[id % 2]; }
 Cls &refCls(int id) { vt_txt("RECV refCls id="); vt_i(id); vt_txt("\n"); return *lib_objs[id % 2]; }
@@ -293,19 +327,22 @@ def scenario_case(args):
     P, N = namer_for("Cee", naming)
     cs = case or (lambda x: x)
     _, NC = namer_for("Cee", naming, cs("Cls_"))
+    _, NA = namer_for("Cee", naming, cs("Abc_"))
     _, NN = namer_for("Cee", naming, cs("ns_"))
     _, NI = namer_for("Cee", naming, cs("ns_inner_"))
     T = P + cs("Cls")
     if case:
         naming = args[1]
     d = {"T": T, "P": P, "ctor": NC("ctor", ""), "dtor": NC("dtor", ""), "id": NC("id", ""), "add": NC("add", ""), "twice": NC("twice", ""),
-         "rename": NC("rename", ""), "name": NC("name", ""), "whichc": NC("which", "_const"), "whichm": NC("which", "_mutable"), "takes": N("takes", ""), "byval": N("byVal", ""), "find": N("findCls", ""), "new": N("newCls", ""), "ref": N("refCls", ""), "cref": N("crefCls", ""),
+         "rename": NC("rename", ""), "name": NC("name", ""), "whichc": NC("which", "_const"), "whichm": NC("which", "_mutable"), "takes": N("takes", ""), "byval": N("byVal", ""), "TA": P + cs("Abc"), "newabc": N("newAbc", ""), "abcid": NA("id", ""), "abcctor": NA("ctor", ""),
+         "p1i": N("put", "_one_int"), "p1d": N("put", "_one_double"), "p2i": N("put", "_two_int"), "p2d": N("put", "_two_double"), "find": N("findCls", ""), "new": N("newCls", ""), "ref": N("refCls", ""), "cref": N("crefCls", ""),
          "val": N("valCls", ""), "next": N("nextColor", ""), "level": N("levelValue", ""), "over0": N("over", "_0"), "over1": N("over", "_1"), "pick0": N("pick", ""), "pick1": N("pick", "_both"), "dflt0": N("dflt", "_0"),
          "dflt1": N("dflt", "_1"), "tint": N("tmpl", "_int"), "tdbl": N("tmpl", "_double"), "w0": N("weigh", "_0"), "w1": N("weigh", "_1"), "order": N("order", ""), "nsf": NN("nsf", ""),
          "innerf": NI("innerf", "")}
     drv = drv_c.C_PRELUDE + "\n".join('#include "%s"' % h for h in sorted(os.listdir(out)) if h.startswith("wrap") and h.endswith(".h")) + r"""
 int main(void) {
   %(T)s a, b, r;
+  %(TA)s x, y;
   %(ctor)s(5, &a); %(ctor)s(9, &b);
   printf("OBS ids"); obs_i(%(id)s(&a)); obs_i(%(id)s(&b)); printf("\n");
   printf("OBS add"); obs_i(%(add)s(&a, 3)); obs_i(%(add)s(&b, 4)); obs_i(%(add)s(&a, -1)); printf("\n");
@@ -320,6 +357,11 @@ int main(void) {
   %(ref)s(0, &r); %(rename)s(&r, "zed"); %(find)s(0, &r); printf("OBS ref"); obs_z(%(name)s(&r)); %(cref)s(2, &r); obs_z(%(name)s(&r)); obs_i(%(id)s(&r)); printf("\n");
   %(new)s(7, &r); printf("OBS new"); obs_i(%(id)s(&r)); obs_i(%(add)s(&r, 1)); printf("\n"); %(dtor)s(&r);
   %(val)s(8, &r); printf("OBS val"); obs_i(%(id)s(&r)); printf("\n"); %(dtor)s(&r);
+  /* objects of two classes released through the library's memory destructor: each by the destructor of its own class */
+  %(newabc)s(3, &x); %(abcctor)s(4, &y); %(new)s(6, &r);
+  printf("OBS abc"); obs_i(%(abcid)s(&x)); obs_i(%(abcid)s(&y)); printf("\n");
+  %(P)sSHROUD_memory_destructor((%(P)sSHROUD_capsule_data *) &r); %(P)sSHROUD_memory_destructor((%(P)sSHROUD_capsule_data *) &x); %(P)sSHROUD_memory_destructor((%(P)sSHROUD_capsule_data *) &y);
+  printf("OBS put"); obs_i(%(p1i)s(1)); obs_i(%(p1d)s(1.5)); obs_i(%(p2i)s(2, 3)); obs_i(%(p2d)s(2.5, 3.5)); printf("\n");
   printf("OBS color"); obs_i(%(next)s(%(P)sRED)); obs_i(%(next)s(%(P)sGREEN)); obs_i(%(next)s(%(P)sBLUE)); printf("\n");
   printf("OBS level"); obs_i(%(level)s(%(P)sHIGH)); obs_i(%(level)s(%(P)sNONE)); obs_i(%(level)s(%(P)sLOW)); printf("\n");
   %(over0)s(4); %(over1)s(-1.5);
@@ -334,7 +376,7 @@ int main(void) {
 }
 """ % d
     open(os.path.join(out, "driver.c"), "w").write(drv)
-    exp_obs = ["OBS ids 5 9", "OBS add 8 13 4", "OBS twice 42", "OBS names 0:[] 3:[bee]", "OBS which 1 2 1", "OBS byval 7 0", "OBS find 100 101", "OBS ref 3:[zed] 3:[zed] 100", "OBS new 7 8", "OBS val 8",
+    exp_obs = ["OBS ids 5 9", "OBS add 8 13 4", "OBS twice 42", "OBS names 0:[] 3:[bee]", "OBS which 1 2 1", "OBS byval 7 0", "OBS find 100 101", "OBS ref 3:[zed] 3:[zed] 100", "OBS new 7 8", "OBS val 8", "OBS abc 3 4", "OBS put 11 12 21 22",
                "OBS color 3 4 0", "OBS level 110 100 101", "OBS dflt 32 34", "OBS tmpl 42 " + A.rnd(A.NATIVE["double"], 2.5),
                "OBS weigh %s %s" % (A.rnd(A.NATIVE["double"], 7.5), A.rnd(A.NATIVE["double"], 2e9)), "OBS ns 2 3"]
     D = A.NATIVE["double"]
@@ -347,6 +389,9 @@ int main(void) {
                 "RECV refCls id=0", "RECV Cls::rename this=100 name=3:[zed]", "RECV findCls id=0", "RECV crefCls id=2",
                 "RECV newCls id=7", "RECV Cls::Cls id=7", "RECV Cls::add this=7 x=1", "RECV Cls::~Cls this=7",
                 "RECV valCls id=8", "RECV Cls::Cls id=8", "@copies", "RECV Cls::~Cls this=8",
+                "RECV newAbc id=3", "RECV Abc::Abc id=3", "RECV Abc::Abc id=4", "RECV newCls id=6", "RECV Cls::Cls id=6",
+                "RECV Cls::~Cls this=6", "RECV Abc::~Abc this=3", "RECV Abc::~Abc this=4",
+                "RECV put<int>(1) v=1", "RECV put<double>(1) v=" + A.rnd(D, 1.5), "RECV put<int>(2) v=2 w=3", "RECV put<double>(2) v=%s w=%s" % (A.rnd(D, 2.5), A.rnd(D, 3.5)),
                 "RECV nextColor c=0", "RECV nextColor c=3", "RECV nextColor c=4",
                 "RECV levelValue lv=10", "RECV levelValue lv=0", "RECV levelValue lv=1",
                 "RECV over(int) a=4", "RECV over(double) a=" + A.rnd(D, -1.5), "RECV pick a=6 b=" + A.rnd(D, 0.5), "RECV pick a=7 b=" + A.rnd(D, 1.5),
